@@ -293,8 +293,12 @@ def catalogue():
     for nm, f, shp in [('x[1]', lambda x: x[1], V), ('x[-1]', lambda x: x[-1], V), ('x[1:]', lambda x: x[1:], V), ('x[::2]', lambda x: x[::2], V),
                        ('x[::-1]', lambda x: x[::-1], V), ('X[:,1]', lambda X: X[:, 1], M), ('X[0]', lambda X: X[0], M), ('X[...,0]', lambda X: X[..., 0], M),
                        ('X.T', lambda X: X.T, (2, 3)), ('X.T[0]', lambda X: X.T[0], (2, 3)), ('X[1:,::-1]', lambda X: X[1:, ::-1], M),
+                       ('x[:]', lambda x: x[:], V), ('X[:]', lambda X: X[:], M), ('X[:,:]', lambda X: X[:, :], M), ('x[...]', lambda x: x[...], V),
                        ('x[np.int64]', lambda x: x[np.int64(2)], V), ('X[0,1]', lambda X: X[0, 1], M), ('X[1:][0]', lambda X: X[1:][0], M)]:
         add('index:' + nm, (lambda f: lambda x: f(x) * 1.5)(f), [(shp, 'R')], ['index'])
+    # the full slice of an intermediate that is used again afterwards (and before): the slice is a view of its parent, adjoints accumulate
+    add('index:full_slice_parent_used_after', lambda x: (lambda u: (lambda v: v * v * 2.0 + A.sin(u) * u)(u[:]))(x * 1.5), [(V, 'R')], ['index'])
+    add('index:full_slice_parent_used_before_and_after', lambda X: (lambda U: (lambda W, V_: W * V_ + U * U)(A.exp(U), U[:]))(X * 0.5), [(M, 'R')], ['index'])
     add('index:X[[0,2]]', lambda X: X[[0, 2]] * 1.5, [(M, 'R')], ['index', 'fancy'])
     add('index:x[[2,0,0]]', lambda x: x[[2, 0, 0]] * np.array([1., 2., 3.]), [(V, 'R')], ['index', 'fancy'])
     add('reshape:contiguous', lambda X: A.reshape(X, (6,)) * np.arange(1., 7.), [((2, 3), 'R')], ['reshape'])
@@ -544,6 +548,11 @@ def catalogue():
     add('sum:rank3', lambda X: A.sum(X), [((2, 1, 2), 'R')], ['reduce', 'shapevar'])
     add('sum:axis0_of_3d', lambda X: A.sum(X, axis=0), [((2, 3, 2), 'R')], ['reduce', 'axis', 'shapevar'])
     add('sum:axis-1_of_3d', lambda X: A.sum(X, axis=-1), [((2, 3, 2), 'R')], ['reduce', 'axis', 'shapevar'])
+    # several axes at once, as numpy.sum accepts them (the reverse sweep has to restore every collapsed axis)
+    add('sum:axes(0,2)_of_3d', lambda X: A.sum(X * X, axis=(0, 2)), [((2, 3, 2), 'R')], ['reduce', 'axis', 'shapevar'])
+    add('sum:axes(-1,0)_of_3d', lambda X: A.sum(X, axis=(-1, 0)) * A.sum(X, axis=(0, 2)), [((2, 3, 2), 'R')], ['reduce', 'axis', 'shapevar'])
+    add('sum:axes(1,)_of_2d', lambda X: A.sum(A.sin(X), axis=(1,)), [((2, 3), 'R')], ['reduce', 'axis', 'shapevar'])
+    add('sum:axes(0,1)_of_2d', lambda X: A.sum(X * X, axis=(0, 1)), [((2, 3), 'R')], ['reduce', 'axis', 'shapevar'])
     add('prod@1', lambda x: A.prod(x), [((1,), 'nz')], ['reduce', 'shapevar'])
     add('trace@1x1', lambda X: A.trace(X), [((1, 1), 'R')], ['reduce', 'shapevar'])
     add('dot:vv@1', lambda a, b: A.dot(a, b), [((1,), 'R'), ((1,), 'R')], ['dot', 'shapevar'])
